@@ -262,6 +262,26 @@ func (r *Report) Violations() int64 {
 	return r.violCount
 }
 
+// BinDir is where the harness binaries of this run live (sub-harness binaries are looked up there).
+func BinDir() string {
+	if d := os.Getenv("VERIF_BIN_DIR"); d != "" {
+		if filepath.IsAbs(d) {
+			return d
+		}
+		return filepath.Join(Root, d)
+	}
+	return filepath.Join(Root, ".build", "bin")
+}
+
+// OutDir is where evidence/ and replays/ are written: /verif, or VERIF_OUT_DIR for trial runs against
+// seeded changes (tools/try_seed.sh), which must not overwrite the evidence of the real tree.
+func OutDir() string {
+	if d := os.Getenv("VERIF_OUT_DIR"); d != "" {
+		return d
+	}
+	return Root
+}
+
 // Finish writes evidence and replay files, prints verdict lines and returns the exit code.
 func (r *Report) Finish() int {
 	r.mu.Lock()
@@ -323,9 +343,9 @@ func (r *Report) Finish() int {
 		ev["assumptions"] = []string{}
 	}
 	if r.Opt.Replay == "" {
-		_ = os.MkdirAll(filepath.Join(Root, "evidence"), 0o755)
+		_ = os.MkdirAll(filepath.Join(OutDir(), "evidence"), 0o755)
 		b, _ := json.MarshalIndent(ev, "", " ")
-		p := filepath.Join(Root, "evidence", r.Opt.Prop+".json")
+		p := filepath.Join(OutDir(), "evidence", r.Opt.Prop+".json")
 		if err := os.WriteFile(p+".tmp", b, 0o644); err == nil {
 			_ = os.Rename(p+".tmp", p)
 		}
@@ -338,12 +358,12 @@ func (r *Report) Finish() int {
 	if r.violCount == 0 {
 		return 0
 	}
-	_ = os.MkdirAll(filepath.Join(Root, "replays"), 0o755)
+	_ = os.MkdirAll(filepath.Join(OutDir(), "replays"), 0o755)
 	seen := map[string]bool{}
 	for _, v := range r.viol {
 		b, _ := json.MarshalIndent(map[string]any{"property": r.Opt.Prop, "signature": v.Signature, "desc": v.Desc, "case": v.Case}, "", " ")
 		sum := sha256.Sum256(b)
-		p := filepath.Join(Root, "replays", r.Opt.Prop+"-"+hex.EncodeToString(sum[:6])+".json")
+		p := filepath.Join(OutDir(), "replays", r.Opt.Prop+"-"+hex.EncodeToString(sum[:6])+".json")
 		if r.Opt.Replay != "" {
 			p = r.Opt.Replay
 		} else {
